@@ -860,6 +860,28 @@ def check_C16(run):
                 j = min(len(t), i + rng.randint(1, 8)); t = t[:i] + t[i:j] + t[i:]
         c = C16Case(); c.spec_text = t; cases.append(c)
     c16_run_cases(run, cases, 'spec-text')
+    # spec files that are not text at all: bytes that are not valid UTF-8 (a lone 0xE9, a truncated sequence, an overlong form, UTF-16) in a path,
+    # a key, a comment: rejected before anything is touched (the documented behaviour: exit status 18); never silently re-spelled
+    import tempfile as _tf, shutil as _sh
+    d_ = _tf.mkdtemp(prefix='rjv-c16b-')
+    try:
+        goodb = b'syncs:\n  - src: a/\n    dest: out/cafe\n    # comment\n'
+        bads = [goodb.replace(b'cafe', b'caf\xe9'), goodb.replace(b'comment', b'comm\xff nt'), goodb.replace(b'src', b's\xc3c'), goodb.replace(b'cafe', b'caf\xc3'), goodb.replace(b'cafe', b'\xc0\xaf'),
+                goodb.replace(b'a/', b'\xed\xa0\x80/'), goodb.decode().encode('utf-16'), goodb + b'\x80', b'\xfe\xff' + goodb]
+        blines = []
+        for i, bb in enumerate(bads):
+            fp = os.path.join(d_, f'b{i}.yaml'); open(fp, 'wb').write(bb)
+            argv = ['--spec', fp]
+            blines.append('resolve ' + ' '.join([str(len(argv))] + [C.X(x) for x in argv]))
+        bans = [a_ for a_, _ in C.run_harness(blines)]
+        for bb, a_ in zip(bads, bans):
+            run.case(('spec-bytes', bb), True, sample=dict(layer='L1', spec_file_bytes=bb.hex()[:120], impl=a_[:200]) if bb is bads[0] else None)
+            run.count('spec-bytes:' + a_.split(':')[0]); run.cov['traces_validated_against_impl'] += 1
+            if not a_.startswith('err'):
+                run.violation(dict(kind='oracle-failed-on-implementation', oracle='a spec file that is not valid UTF-8 is rejected, not re-spelled', layer='L1', spec_file_bytes=bb.hex(), impl=a_[:600]))
+                break
+    finally:
+        _sh.rmtree(d_, ignore_errors=True)
     # path arguments
     strs = ['', 'f', 'h:f', 'u@h:f', 'C:', 'C:\\', 'C:\\x', 'C:x', 'C:/x', 'ab:\\x', '@h:f', 'u@:f', ':f', 'h:', 'u@h:', 'u@h@i:f', 'a:b:c', 'é:', 'é:\\x', '1:\\', 'h:\\x', ' :x', 'u@h', '@', 'a@b@c', '::', ':', 'x:', '\\:a']
     strs += [''.join(rng.choice(['a', ':', '@', '\\', 'C', 'é', '/']) for _ in range(rng.randint(0, 6))) for _ in range(400 if not thorough else 5000)]
